@@ -183,43 +183,47 @@ func (c *fakeConn) Read(p []byte) (int, error) {
 	}
 }
 
+// Write and Close log their event while holding c.mu: the log order of the
+// writes and the close of one connection is then the order in which they took
+// effect (a write that was admitted before a concurrent Close is logged before it).
 func (c *fakeConn) Write(p []byte) (int, error) {
 	b := make([]byte, len(p))
 	copy(b, p)
 	for {
 		c.mu.Lock()
-		closed, reset, late, stalled := c.closed, c.rreset, expired(c.wdl), c.stalled
-		w := c.wake
-		if closed {
-			c.nWrAfter++
-		}
-		c.mu.Unlock()
 		switch {
-		case closed:
+		case c.closed:
+			c.nWrAfter++
 			c.tr.emit(event{E: "wfail", C: c.name, B: b})
+			c.mu.Unlock()
 			return 0, net.ErrClosed
-		case reset:
+		case c.rreset:
 			c.tr.emit(event{E: "wfail", C: c.name, B: b})
+			c.mu.Unlock()
 			return 0, syscall.EPIPE
-		case late:
+		case expired(c.wdl):
 			c.tr.emit(event{E: "wfail", C: c.name, B: b, R: "deadline"})
+			c.mu.Unlock()
 			return 0, os.ErrDeadlineExceeded
-		case stalled:
+		case c.stalled:
+			w := c.wake
+			c.mu.Unlock()
 			<-w // durably blocking inside the bubble
 			continue
 		}
 		c.tr.emit(event{E: "w", C: c.name, B: b})
+		c.mu.Unlock()
 		return len(p), nil
 	}
 }
 
 func (c *fakeConn) Close() error {
 	c.mu.Lock()
+	defer c.mu.Unlock()
 	c.nClose++
 	first := !c.closed
 	c.closed = true
 	c.signal()
-	c.mu.Unlock()
 	if first {
 		c.tr.emit(event{E: "lclose", C: c.name})
 		return nil
